@@ -200,3 +200,17 @@ prop("C05", "exploration",
      "Non-trivial = some compute() restarted at least once and returned a pair; distinct by (solver, n, nev, ncv, history word, scale, total applications)",
      [dict(name="c05_g%d" % g, sources=["c05_api.cpp"], flavour="asan", flags=["-DZOO_GROUP=%d" % g], deps=ZOO_DEPS + ["common/fachook.hpp"]) for g in (0, 1, 2)],
      assumptions=TRUST + ["the number of restarts is observed as the number of compress_V hook events, the number of operator applications by a wrapper around the user's operator"])
+
+
+# ------------------------------------------------------------------------------------------ C13
+prop("C13", "exploration",
+     "(A) hostile workload: 17 solver configurations + PartialSVDSolver on finite matrices of norm 1e-8..1e8 from every generator class plus the named degenerate inputs (zero, identity, scaled identity, "
+     "rank one, exact ties in every selection key), half of the cases with n <= 10 (all legal (nev, ncv) shapes incl. ncv = nev+1/nev+2 and ncv = n), all rules, maxit from 0, four start-vector kinds; "
+     "monitors: sanitizer + Eigen assertions (asan) and sanitizer as a release build (asan-ndebug), validating operator wrapper (distinct, non-overlapping, fully addressable length-n buffers; "
+     "output pre-filled with NaN), operator-application count against 2+2*ncv*(maxit+1), outcome classifier (finite results with Successful/NotConverging, or a documented exception type). "
+     "(B) small-scope enumeration through the guarded friend: for every ncv <= 10 (14 thorough) and nev, Ritz arrays holding reals and conjugate pairs tied in every key in arbitrary order, arbitrary "
+     "zero patterns of the Ritz estimates and every nconv: nev_adjusted() in range, pair not split, then the real restart() under the sanitizer. "
+     "Non-trivial = run that went past the first factorization / every enumerated state; distinct by their parameters",
+     [dict(name="c13_g%d" % g, sources=["c13_safety.cpp"], flavour="asan", flags=["-DZOO_GROUP=%d" % g], deps=ZOO_DEPS + ["common/fachook.hpp"]) for g in (0, 1, 2)] +
+     [dict(name="c13n_g%d" % g, sources=["c13_safety.cpp"], flavour="asan-ndebug", flags=["-DZOO_GROUP=%d" % g], deps=ZOO_DEPS + ["common/fachook.hpp"]) for g in (0, 1, 2)],
+     assumptions=TRUST + ["termination is decided by the operator-application bound enforced inside the wrapper, never by wall-clock time"])
